@@ -41,6 +41,12 @@ int op_enc(cfg_t c, int legacy, const unsigned char *data, size_t len, stripe_t 
     return 0;
 }
 
+/* Readers never look at the writer's switch: when a suite sets this, every reading call below runs with
+   LIBERASURECODE_WRITE_LEGACY_CRC=1 in the environment (the model has no such input for these operations). */
+int g_env_readers = 0;
+#define READER_ENV_ON()  do { if (g_env_readers) setenv("LIBERASURECODE_WRITE_LEGACY_CRC", "1", 1); } while (0)
+#define READER_ENV_OFF() do { if (g_env_readers) unsetenv("LIBERASURECODE_WRITE_LEGACY_CRC"); } while (0)
+
 /* ---------------------------------------------------------------- dec */
 typedef struct { cfg_t c; int force; uint64_t flen; int n; char **frags; int misalign;
                  const unsigned char *expect; uint64_t expect_len; int *verdict; } dec_a;
@@ -51,8 +57,9 @@ static char **place(char **frags, int n, uint64_t flen, int misalign, char ***ba
     *bases = malloc(sizeof(char *) * (n ? n : 1));
     for (int i = 0; i < n; i++) {
         void *b = NULL;
-        if (posix_memalign(&b, 16, flen + 32) != 0) abort();
         int off = misalign ? (1 + (int)((i * 7 + misalign) % 15)) : 0;
+        /* exactly off + flen bytes: a read beyond fragment_len is a read beyond the allocation */
+        if (posix_memalign(&b, 16, flen + (size_t)off + (flen + (size_t)off == 0)) != 0) abort();
         (*bases)[i] = b;
         out[i] = (char *)b + off;
         memcpy(out[i], frags[i], flen);
@@ -69,7 +76,9 @@ static void run_dec(void *va, FILE *out) {
     int desc = cfg_desc(a->c);
     char **bases; char **fr = place(a->frags, a->n, a->flen, a->misalign, &bases);
     char *od = NULL; uint64_t olen = 0;
+    READER_ENV_ON();
     int rc = liberasurecode_decode(desc, fr, a->n, a->flen, a->force, &od, &olen);
+    READER_ENV_OFF();
     if (rc != 0) {
         fprintf(out, "err %d", rc);
         if (a->verdict) *a->verdict = rc;
@@ -209,7 +218,9 @@ static void run_meta(void *va, FILE *out) {
         if (g_progress) snprintf(g_progress, 200, "in get_fragment_metadata of a fragment on read-only pages");
     } else { copy = malloc(a->len); memcpy(copy, a->frag, a->len); }
     fragment_metadata_t md; memset(&md, 0xEE, sizeof md);
+    READER_ENV_ON();
     int rc = liberasurecode_get_fragment_metadata((char *)copy, &md);
+    READER_ENV_OFF();
     if (rc != 0) fprintf(out, "err %d", rc);
     else {
         fprintf(out, "ok %u %u %u %llu %u ", md.idx, md.size, md.frag_backend_metadata_size,
@@ -231,7 +242,9 @@ void op_meta(unsigned char *frag, size_t len, int g) {
 static void run_hdrinv(void *va, FILE *out) {
     frag_a *a = va;
     unsigned char copy[HDR]; memcpy(copy, a->frag, HDR);
+    READER_ENV_ON();
     int r = is_invalid_fragment_header((fragment_header_t *)copy);
+    READER_ENV_OFF();
     fprintf(out, "%d", r ? 1 : 0);
     if (memcmp(copy, a->frag, HDR)) fprintf(out, " INPUT-MODIFIED");
 }
@@ -245,7 +258,9 @@ static void run_fraginv(void *va, FILE *out) {
     frag_a *a = va;
     int desc = cfg_desc(a->c);
     unsigned char *copy = malloc(a->len); memcpy(copy, a->frag, a->len);
+    READER_ENV_ON();
     int r = is_invalid_fragment(desc, (char *)copy);
+    READER_ENV_OFF();
     fprintf(out, "%d", r ? 1 : 0);
     if (memcmp(copy, a->frag, a->len)) fprintf(out, " INPUT-MODIFIED");
     free(copy);
@@ -263,7 +278,9 @@ int op_stripe(cfg_t c, int n, char **frags, uint64_t flen) {
     op_begin("stripe"); emit_cfg(c); printf(" %d", n);
     for (int i = 0; i < n; i++) op_hex(frags[i], flen);
     op_sep();
+    READER_ENV_ON();
     int rc = liberasurecode_verify_stripe_metadata(cfg_desc(c), frags, n);
+    READER_ENV_OFF();
     res_end("%d", rc);
     return rc;
 }
